@@ -19,6 +19,7 @@ LOOPS = r"""
 (define (c19-acyclic n) (if (= n 0) 0 (begin (box n) (c19-acyclic (- n 1)))))
 (define (c19-cyc n len) (if (= n 0) 0 (begin (c04-cyc len) (c19-cyc (- n 1) len))))
 (define (c19-vec n) (if (= n 0) 0 (begin (let ((v (vector 1 2))) (vector-set! v 0 v)) (c19-vec (- n 1)))))
+(define (c19-selfclo n) (if (= n 0) 0 (begin (let ((b (box 0))) (set-box! b (lambda () b))) (c19-selfclo (- n 1)))))
 (define c19-k 0)
 (set! c19-k 0)
 (define (c19-grab v) (let ((x v)) (let ((m (call/cc (lambda (k) (set! c19-k k) 'first)))) (if (eq? m 'first) 0 (unbox x)))))
@@ -47,6 +48,7 @@ def loop_cases(ck, facts):
             ("cycle-%d" % k2, "(c19-cyc %d %d)" % (max(1, n // (10 * k2)), k2), 10),
             ("self-cycle", "(c19-cyc %d 1)" % (n // 10), 10),
             ("vector-cycle", "(c19-vec %d)" % (n // 10), 10),
+            ("self-capturing-closure", "(c19-selfclo %d)" % (n // 10), 10),
             ("dead-continuation", "(c19-kont %d)" % (n // 20), 10),
             ("finished-threads", "(c19-threads %d %d)" % (4 if quick else 40, n // 400), 5)]
     cases = []
